@@ -333,6 +333,10 @@ def judge(d):
             tj = pick(reals, op["t2"])
             r2, m2 = reals[tj], models[tj]
             same_schema = m2.cols == cols and not (mt.untyped_empty and not mt.rows) and not (m2.untyped_empty and not m2.rows)
+            # a strict (nullable=False) concatenation is only requested for tables whose columns also come in the same order
+            # (the order after an earlier nullable concat depends on which operands had rows; polars rejects a vertical
+            # concat of differently ordered frames, which is a rejection, not a misalignment)
+            same_schema = same_schema and list(real.features.columns) == list(r2.features.columns)
             nullable = op["nullable"] or not same_schema
             if name == "concat":
                 tk = pick(reals, op["t3"])
@@ -340,7 +344,8 @@ def judge(d):
                 if op["three"] and ((models[tk].cols == cols and (models[tk].rows or not models[tk].untyped_empty)) or nullable):
                     parts_r.append(reals[tk])
                     parts_m.append(models[tk])
-                if not nullable and not all(p.cols == cols for p in parts_m):
+                if not nullable and not (all(p.cols == cols for p in parts_m)
+                                         and all(list(p.features.columns) == list(real.features.columns) for p in parts_r)):
                     nullable = True
                 # any iterable of molecules, also a one-shot generator
                 arg = parts_r if not op.get("as_iter") else (iter(parts_r) if op["as_iter"] == 1 else (p_ for p_ in parts_r))
